@@ -1,7 +1,8 @@
 """C17 — history-based check (see tools/histprop.py, coq/Monitors.v mon_C17)."""
+import re
+
 import common
 import histprop
-from common import from_replay, to_replay  # noqa: F401
 
 PID = "C17"
 COQ_MODULE = "Prop_C17"
@@ -10,19 +11,79 @@ CASE_MODULES = ["Pf_Hist", "Monitors"]
 CHECK_WITHOUT_PROOF = True
 TRUSTED = common.TRUSTED_COMMON
 ASSUMPTIONS = common.ASSUME_COMMON
-RULE = 'random API histories (1-3 threads, 4-14 calls, API-call-atomic) over a random universe of single locks, poisonable wrappers and collections of every kind / container / nesting depth <= 2 sharing leaves, with random holds of other threads present from the start; vocabulary adds Debug formatting of every lock / collection, is_poisoned, clear_poison, while locks are held by other threads and by the caller itself; observation = raw operations + hold table; non-trivial = a non-acquiring call while something is held; distinct = scenario text'
+RULE = 'random API histories (1-3 threads, 4-14 calls, API-call-atomic) over a random universe of single locks, poisonable wrappers and collections of every kind / container / nesting depth <= 2 sharing leaves, with random holds of other threads present from the start; vocabulary adds Debug formatting of every lock / collection, is_poisoned, clear_poison, while locks are held by other threads and by the caller itself; observation = raw operations + hold table; non-trivial = a non-acquiring call while something is held; distinct = scenario text; plus, exhaustively, every accessor (get_mut, as_mut, child_mut, iter_mut, child, as_ref, iter, Debug, is_poisoned, clear_poison, into_child, into_inner) of every owner kind (Mutex, RwLock, Poisonable, owned / retrying / boxed / ref collection of 1-3 locks) on an object whose locks are free or held through a leaked guard: the vector of held member locks seen by another thread must be the same before and after, and the call must not wait'
 EXHAUSTIVE = {"quick": False, "thorough": False}
-classify = histprop.classify
-signature = histprop.signature
+
+
+class ACase:
+    """an accessor run on an object whose locks are held through a leaked guard (harness/src/acc.rs); judged on the
+    implementation only: the vector of held member locks must be the same before and after, and the call must not wait"""
+    def __init__(self, sid, owner, n, held, acc):
+        self.sid, self.owner, self.n, self.held, self.acc = sid, owner, n, held, acc
+        self.hist, self.meta = [], {}
+
+    def text(self):
+        return f"a {self.sid} {self.owner} {self.n} {self.held} {self.acc}"
+
+
+ACCESSORS = {
+    "mutex": (["none", "ex"], ["get_mut", "as_mut", "fmt", "into_inner"], [1]),
+    "rwlock": (["none", "ex", "sh"], ["get_mut", "as_mut", "fmt"], [1]),
+    "poison": (["none", "ex"], ["get_mut", "is_poisoned", "clear_poison", "fmt"], [1]),
+    "owned": (["none", "ex"], ["get_mut", "as_mut", "fmt", "into_child", "into_inner"], [1, 2, 3]),
+    "retry": (["none", "ex"], ["get_mut", "child_mut", "as_mut", "as_ref", "iter", "iter_mut", "fmt", "into_child"], [1, 2, 3]),
+    "boxed": (["none", "ex"], ["child", "as_ref", "iter", "fmt", "into_child"], [1, 2, 3]),
+    "ref": (["none", "ex"], ["as_ref", "iter", "fmt"], [1, 2, 3]),
+}
+
+
+def acc_cases():
+    out = []
+    for owner, (helds, accs, ns) in ACCESSORS.items():
+        for n in ns:
+            for held in helds:
+                for acc in accs:
+                    out.append(ACase(f"c17a_{len(out)}", owner, n, held, acc))
+    return out
 
 
 def gen(tier, rng):
-    return histprop.gen(PID, tier, rng)
+    return histprop.gen(PID, tier, rng) + acc_cases()
 
 
 def coq_expr(s, r):
+    if isinstance(s, ACase):
+        m = re.match(r"ok (\[.*?\]) (\[.*\])$", r.get("vobs", "") or "")
+        if not m:
+            return "mkv true true false false"          # the accessor waited or panicked
+        same = f"list_eqb Bool.eqb {m.group(1)} {m.group(2)}"
+        return f"mkv true true ({same}) ({same})"
     return histprop.coq_expr(PID, s, r)
 
 
+def classify(s, r):
+    if isinstance(s, ACase):
+        return ["family=accessor-on-held-object", f"owner={s.owner}", f"held={s.held}", f"accessor={s.acc}"]
+    return histprop.classify(s, r)
+
+
+def signature(s):
+    return s.text() if isinstance(s, ACase) else histprop.signature(s)
+
+
 def nontrivial(s, r):
+    if isinstance(s, ACase):
+        return s.held != "none"
     return histprop.nontrivial(PID, s, r)
+
+
+def to_replay(s):
+    return {"case": s.text()} if isinstance(s, ACase) else common.to_replay(s)
+
+
+def from_replay(j):
+    sc = j.get("scenario") or j
+    if "case" in sc:
+        t = sc["case"].split()
+        return [ACase(t[1], t[2], int(t[3]), t[4], t[5])]
+    return common.from_replay(j)
